@@ -73,6 +73,12 @@ def run_one(cfg, ctx, fp=True):
     async def caller(i):
         if offs[i]:
             await asyncio.sleep(offs[i])
+        if i == 0 and cfg.get('chain'):
+            # caller 0 is a polling loop: the SAME task has just made another request on the object (answered at once)
+            try:
+                await inv.read_sensor('modbus-998')
+            except BaseException:  # noqa: BLE001
+                pass
         try:
             res[i] = ('ok', await inv.read_sensor(tg[i][0]))
         except BaseException as e:  # noqa: BLE001
@@ -81,6 +87,8 @@ def run_one(cfg, ctx, fp=True):
 
     async def main():
         await asyncio.gather(*[caller(i) for i in range(N)])
+    if cfg.get('chain'):
+        peer.forced = ['valid']
     st, r = loop.run(main())
     loop.settle(0)
     ctx.fp = None
@@ -211,7 +219,7 @@ def job(j):
         choices, cause = lst[0]
         o2 = run_one(cfg, Ctx(choices), fp=False)
         letters = sorted({l for _, _, _, l in o2['sent']} - {'valid'})
-        key = f"{clause}/{cfg['transport']}/ka={int(cfg['ka'])}/{'+'.join(letters) or 'no-faults'}" + \
+        key = f"{clause}/{cfg['transport']}/ka={int(cfg['ka'])}/{'+'.join(letters) or 'no-faults'}" + ('/caller-0-polls-in-a-loop' if cfg.get('chain') else '') + \
             (f"/after:{cfg['prior']}" if cfg.get('prior', 'none') != 'none' else '')
         if not any(c == clause for c, _ in monitor(cfg, o2)):
             key = f"{clause}/{cfg['transport']}/ka={int(cfg['ka'])}/order-dependent"
@@ -269,6 +277,11 @@ def run(tier, seed, rep):
             for prior in (('exhausted', 'rejected@.5T', 'fragments', 'garbage') if tier == 'thorough' else ('rejected@.5T', 'fragments')):
                 jobs.append((dict(transport=tr, ka=ka, T=1, R=1, N=2, prior=prior), 'product' if tier == 'thorough' else 'deviations',
                              None if tier == 'thorough' else 3, ()))
+    # caller 0 as a polling loop: its task made a request on the object right before (same task, no yield in between)
+    for tr in ('udp', 'tcp'):
+        for ka in (False, True):
+            jobs.append((dict(transport=tr, ka=ka, T=1, R=1, N=2, chain=True), 'product', None, ()))
+            jobs.append((dict(transport=tr, ka=ka, T=1, R=1, N=3, chain=True), 'deviations', 3, ()))
     k = seed % len(jobs)
     jobs = jobs[k:] + jobs[:k]
     total = Stats()
